@@ -17,6 +17,8 @@ struct Node {
     children: Vec<String>,
     /// path -> id the module at that path saw for itself in its first start stage
     ids: Ids,
+    /// this module's at_sim_end reports an error
+    fail_end: bool,
 }
 type Ids = Arc<Mutex<std::collections::BTreeMap<String, String>>>;
 impl Module for Node {
@@ -53,6 +55,9 @@ impl Module for Node {
             self.path,
             me.path().as_str() == self.path
         ));
+        if self.fail_end {
+            return Err(RuntimeError::from(std::io::Error::other("this module reports a failed run")));
+        }
         Ok(())
     }
 }
@@ -86,6 +91,8 @@ struct Case {
     /// after every insertion every path inserted so far is offered again, and an orphan is
     /// offered; each offer must be rejected and must leave the builder as it was
     offers: bool,
+    /// node whose at_sim_end returns an error (every other module is torn down all the same)
+    fail_end: Option<usize>,
 }
 
 fn paths(parent: &[Option<usize>]) -> Vec<String> {
@@ -100,7 +107,7 @@ fn paths(parent: &[Option<usize>]) -> Vec<String> {
 }
 
 fn case_json(c: &Case) -> Value {
-    json!({"parent": c.parent, "paths": paths(&c.parent), "insertion_order": c.order, "stages": c.stages, "rejected_offers_in_between": c.offers})
+    json!({"parent": c.parent, "paths": paths(&c.parent), "insertion_order": c.order, "stages": c.stages, "rejected_offers_in_between": c.offers, "at_sim_end_fails_in": c.fail_end})
 }
 fn case_from(v: &Value) -> Case {
     Case {
@@ -108,6 +115,7 @@ fn case_from(v: &Value) -> Case {
         order: v["insertion_order"].as_array().unwrap().iter().map(|p| p.as_u64().unwrap() as usize).collect(),
         stages: v["stages"].as_array().unwrap().iter().map(|p| p.as_u64().unwrap() as usize).collect(),
         offers: v["rejected_offers_in_between"].as_bool().unwrap_or(false),
+        fail_end: v["at_sim_end_fails_in"].as_u64().map(|x| x as usize),
     }
 }
 
@@ -124,11 +132,11 @@ fn run_inner(c: &Case) -> Result<u64, String> {
     let mut sim = Sim::new(());
     for (k, &i) in c.order.iter().enumerate() {
         let children: Vec<String> = (0..n).filter(|&k| c.parent[k] == Some(i)).map(|k| ps[k].clone()).collect();
-        sim.node(ps[i].as_str(), Node { path: ps[i].clone(), log: log.clone(), stages: c.stages[i], children, ids: ids.clone() });
+        sim.node(ps[i].as_str(), Node { path: ps[i].clone(), log: log.clone(), stages: c.stages[i], children, ids: ids.clone(), fail_end: c.fail_end == Some(i) });
         if c.offers {
             let junk: Log = Default::default();
             let mut offer = |p: String| -> bool {
-                let nd = Node { path: format!("offered:{p}"), log: junk.clone(), stages: 1, children: vec![], ids: Default::default() };
+                let nd = Node { path: format!("offered:{p}"), log: junk.clone(), stages: 1, children: vec![], ids: Default::default(), fail_end: false };
                 std::panic::catch_unwind(std::panic::AssertUnwindSafe(|| {
                     sim.node(p.as_str(), nd);
                 }))
@@ -145,8 +153,8 @@ fn run_inner(c: &Case) -> Result<u64, String> {
         }
     }
     let r = Builder::seeded(1).quiet().build(sim.freeze()).run();
-    if let Err(e) = &r {
-        return Err(format!("run returned an error: {e:?}"));
+    if r.is_err() != c.fail_end.is_some() {
+        return Err(format!("run returned {} although {}", if r.is_err() { "an error" } else { "Ok" }, if c.fail_end.is_some() { "a module's at_sim_end reported one" } else { "no module reported one" }));
     }
     // expected: depth-first pre-order, siblings in creation (= insertion) order
     fn dfs(i: usize, par: &[Option<usize>], order: &[usize], out: &mut Vec<usize>) {
@@ -196,7 +204,7 @@ fn run_inner(c: &Case) -> Result<u64, String> {
 
 /// builder rejections: kind 0 = duplicate path at depth d, kind 1 = node whose parent is missing
 fn rejection(kind: u8, depth: usize) -> Result<(), String> {
-    let mk = |p: &str| Node { path: p.into(), log: Default::default(), stages: 1, children: vec![], ids: Default::default() };
+    let mk = |p: &str| Node { path: p.into(), log: Default::default(), stages: 1, children: vec![], ids: Default::default(), fail_end: false };
     let chain: Vec<String> = (0..depth).map(|d| NAMES[..=d].join(".")).collect();
     let accepted = std::sync::Arc::new(Mutex::new(false));
     let acc = accepted.clone();
@@ -232,7 +240,7 @@ impl Property for C12 {
         format!(
             "every rooted forest with 1..={} nodes (names a, ab, b, a1, abc, c: prefix-sharing siblings and parent/child names) x every linear extension of parent-before-child as insertion order x every assignment of 1..3 start stages (for up to {} nodes; larger trees: all assignments with at most 2 nodes deviating from 1 stage); \
              oracle: at_sim_start log == stage-major, depth-first pre-order with siblings in creation order, exactly once per declared stage, all before the first event; at_sim_end exactly once per module after the last event; parent()/child()/path()/name() agree with the declared tree, and the module a lookup returns is the declared one (same id as that module sees for itself); \
-             duplicate path and missing parent rejected at depths 1..3; per (forest, insertion order) one more run in which, after every insertion, every path inserted so far and an orphan are offered again: each offer must be rejected and the run must be unchanged; non-trivial = forest with at least 3 nodes",
+             duplicate path and missing parent rejected at depths 1..3; per (forest, insertion order) one more run in which, after every insertion, every path inserted so far and an orphan are offered again: each offer must be rejected and the run must be unchanged; and one run in which one module's at_sim_end returns an error: run() reports it and every module is still torn down exactly once; non-trivial = forest with at least 3 nodes",
             tier.pick(5, 6),
             tier.pick(4, 4)
         )
@@ -241,7 +249,7 @@ impl Property for C12 {
         vec!["modules are created through the simulation builder (Sim::node); NDL-built trees are C18's subject".into()]
     }
     fn required_features(&self, _tier: Tier) -> Vec<&'static str> {
-        vec!["interleaved_children_of_different_parents", "multi_stage_module", "depth_three_tree", "builder_rejections", "several_roots", "rejected_offers_between_insertions"]
+        vec!["interleaved_children_of_different_parents", "multi_stage_module", "depth_three_tree", "builder_rejections", "several_roots", "rejected_offers_between_insertions", "tear_down_reporting_an_error"]
     }
     fn explore(&self, ctx: &mut Ctx) {
         if ctx.is_first_shard() {
@@ -309,11 +317,16 @@ impl Property for C12 {
                     }
                     // children of different parents interleaved in the insertion order
                     let interleaved = perm.windows(3).any(|w| par[w[0]].is_some() && par[w[0]] == par[w[2]] && par[w[1]] != par[w[0]] && par[w[1]].is_some());
-                    for (si, stages) in stage_sets.iter().enumerate().flat_map(|(i, s)| if i == 0 { vec![(0usize, s), (usize::MAX, s)] } else { vec![(i, s)] }) {
+                    for (si, stages) in stage_sets.iter().enumerate().flat_map(|(i, s)| if i == 0 { vec![(0usize, s), (usize::MAX, s), (usize::MAX - 1, s)] } else { vec![(i, s)] }) {
                         if !ctx.mine() {
                             continue;
                         }
-                        let c = Case { parent: par.clone(), order: perm.clone(), stages: stages.clone(), offers: si == usize::MAX };
+                        // the failing module rotates with the insertion order
+                        let fail_end = (si == usize::MAX - 1).then(|| perm[perm.len() / 2]);
+                        let c = Case { parent: par.clone(), order: perm.clone(), stages: stages.clone(), offers: si == usize::MAX, fail_end };
+                        if fail_end.is_some() {
+                            ctx.hit("tear_down_reporting_an_error");
+                        }
                         if c.offers {
                             ctx.hit("rejected_offers_between_insertions");
                         }
